@@ -133,6 +133,11 @@ pub enum ClaimSpec {
     Custom { key: String, value: Value },
     /// CustomClaim::try_from((key, <native Rust value>))
     Native { key: String, val: NativeVal },
+    /// CustomClaim::try_from((&str key, serde_json::Value)) - the borrowed-key constructor
+    CustomRef { key: String, value: Value },
+    /// a caller-defined claim type (implements PasetoClaim) that serialises as the bare value, not as a
+    /// {key: value} map
+    Bare { key: String, value: Value },
 }
 
 #[derive(Serialize, Deserialize, Clone, Debug, PartialEq)]
@@ -197,6 +202,8 @@ impl ClaimSpec {
             ClaimSpec::Iat(_) => "iat",
             ClaimSpec::Custom { key, .. } => key,
             ClaimSpec::Native { key, .. } => key,
+            ClaimSpec::CustomRef { key, .. } => key,
+            ClaimSpec::Bare { key, .. } => key,
         }
     }
     /// the JSON value this claim stands for
@@ -209,7 +216,7 @@ impl ClaimSpec {
             | ClaimSpec::Exp(s)
             | ClaimSpec::Nbf(s)
             | ClaimSpec::Iat(s) => Value::String(s.clone()),
-            ClaimSpec::Custom { value, .. } => value.clone(),
+            ClaimSpec::Custom { value, .. } | ClaimSpec::CustomRef { value, .. } | ClaimSpec::Bare { value, .. } => value.clone(),
             ClaimSpec::Native { val, .. } => val.to_json(),
         }
     }
@@ -321,6 +328,8 @@ pub enum FaultKind {
     SigNegateS,
     /// overwrite `len` decoded bytes at `at` with seeded random bytes
     RandomEdit { seg: Seg, at: usize, hex: String },
+    /// re-write a segment from the URL-safe to the standard base64 alphabet ('-' -> '+', '_' -> '/')
+    AlphabetSwap { seg: Seg },
     /// channel-level, no content change
     Duplicate,
 }
